@@ -169,6 +169,8 @@ pub fn tx_alphabet(n: &Node, cfg: &AlphaCfg) -> Vec<(String, Transaction, bool)>
             }
             if cfg.adversarial {
                 acc.push((format!("unbal+1({})", short(&c.0)), tx_t(TxKind::Normal, ins.clone(), with(vec![out_t(v + 1, *d)]), 0, vec![]), false));
+                // unbalanced in an ordinary denomination while also issuing a new token (the exemption of the new token must not spread)
+                acc.push((format!("unbal+1+newtoken({})", short(&c.0)), tx_t(TxKind::Normal, ins.clone(), with(vec![out_t(v + 1, *d), out_t(7, Denom::NewCustom)]), 0, vec![]), false));
                 acc.push((format!("nocov({})", short(&c.0)), mktx(TxKind::Normal, ins.clone(), with(vec![out_t(v, *d)]), 0, vec![], vec![]), false));
                 let mut dbl = ins.clone();
                 dbl.push(c.0);
